@@ -116,6 +116,12 @@ fn parse_index(spelling: &str, len: usize) -> Result<usize, String> {
     Ok(r as usize)
 }
 
+/// the component index a spelling denotes in a section of this schema, if it denotes one
+pub fn resolve_index(schema: &RSchema, sec: &Section, spelling: &str) -> Option<usize> {
+    let len = match sec { Section::Core => schema.core.len(), Section::ExtraCore => schema.extra_core.len(), Section::Build => schema.build.len() };
+    parse_index(spelling, len).ok()
+}
+
 fn num(text: &str) -> Result<u32, String> {
     if text.is_empty() || !text.bytes().all(|b| b.is_ascii_digit()) { return Err(format!("non-numeric value {text:?} for a numeric component")); }
     text.parse::<u32>().map_err(|_| format!("value {text:?} out of range"))
